@@ -212,7 +212,8 @@ def run_cases(lines, binary=CELLRUN, env=None, timeout=900):
     for i, l in enumerate(lines):
         if i in ss:
             try:
-                raw.append(run_lines(binary, [l], timeout=OUT_CASE_DEADLINE, env=env or GOENV)[0])
+                r1 = run_lines(binary, [l], timeout=OUT_CASE_DEADLINE, env=env or GOENV)[0]
+                raw.append('TIMEOUT' if r1.startswith('TIMEOUT') else r1)   # run_lines reports an overrun as a TIMEOUT answer
             except subprocess.TimeoutExpired:
                 raw.append('TIMEOUT')
         else:
